@@ -132,6 +132,12 @@ Theorem reply_has_at_most_one_opt : forall noedns trunc resp, (length (reply_ecs
 Proof. exact reply_one_opt. Qed.
 Print Assumptions reply_has_at_most_one_opt.
 
+(* the byte path (WriteWire): the appended OPT is composed from the layer's own facts only *)
+Theorem no_ecs_on_the_wire_path : forall noedns cookie nsid keepalive ede l,
+  wire_reply_codes noedns cookie nsid keepalive ede = Some l -> ~ In 8 l.
+Proof. exact wire_reply_no_ecs. Qed.
+Print Assumptions no_ecs_on_the_wire_path.
+
 (* the BADVERS reply (EDNS version <> 0) is a bare OPT, forwarding enabled or not *)
 Theorem no_ecs_in_badvers_reply : forall b remote extra n, In n (badvers_reply_counts b remote extra) -> n = 0.
 Proof. exact badvers_reply_clean. Qed.
